@@ -1,4 +1,4 @@
-use super::swift_utils::{parse_exact_length, parse_swift_chars, parse_uppercase};
+use super::swift_utils::{ensure_ascii, parse_exact_length, parse_swift_chars, parse_uppercase};
 use crate::errors::ParseError;
 use crate::traits::SwiftField;
 use serde::{Deserialize, Serialize};
@@ -32,6 +32,7 @@ impl SwiftField for Field23 {
     where
         Self: Sized,
     {
+        ensure_ascii(input, "Field 23")?;
         if input.len() < 4 {
             // Minimum: 3 char function code + 1 char reference
             return Err(ParseError::InvalidFormat {
@@ -146,6 +147,7 @@ impl SwiftField for Field23B {
     where
         Self: Sized,
     {
+        ensure_ascii(input, "Field 23")?;
         // Must be exactly 4 characters
         let instruction_code = parse_exact_length(input, 4, "Field 23B instruction code")?;
 
@@ -203,6 +205,7 @@ impl SwiftField for Field23E {
     where
         Self: Sized,
     {
+        ensure_ascii(input, "Field 23")?;
         if input.len() < 4 {
             return Err(ParseError::InvalidFormat {
                 message: format!(
